@@ -175,7 +175,7 @@ P3F = 'src/geom3/plane3.rs'
 M('C19', 'basis-xz-left-handed', I3F, "        let e1 = e2.cross(&e0).try_normalize(1e-10).ok_or(\"Could not normalize e1\")?;\n        let e2 = e0.cross(&e1)", "        let e1 = e0.cross(&e2).try_normalize(1e-10).ok_or(\"Could not normalize e1\")?;\n        let e2 = e0.cross(&e1)", 'try_from_basis_xz:right-handed')
 M('C19', 'basis-zy-swapped-cross', I3F, "        let e0 = e1.cross(&e2).try_normalize(1e-10).ok_or(\"Could not normalize e0\")?;\n        let e1 = e2.cross(&e0).try_normalize(1e-10).ok_or(\"Could not normalize e2\")?;", "        let e0 = e1.cross(&e2).try_normalize(1e-10).ok_or(\"Could not normalize e0\")?;\n        let e1 = e0.cross(&e2).try_normalize(1e-10).ok_or(\"Could not normalize e2\")?;", 'try_from_basis_zy:right-handed')
 M('C19', 'basis-yx-unguarded-normalize', I3F, "        let e2 = e0.cross(&e1).try_normalize(1e-10).ok_or(\"Could not normalize e2\")?;\n        let e0 = e1.cross(&e2)", "        let e2 = e0.cross(&e1).normalize();\n        let e0 = e1.cross(&e2)", 'try_from_basis_yx:normalisation-guarded')
-M('C19', 'from_bases-column-order', I3F, "    let rot_m = Matrix3::from_columns(&[e0, e1, e2]);\n    let r = UnitQuaternion::from_matrix(&rot_m);\n    let t = if let Some(o) = origin {", "    let rot_m = Matrix3::from_columns(&[e1, e0, e2]);\n    let r = UnitQuaternion::from_matrix(&rot_m);\n    let t = if let Some(o) = origin {", 'from_bases')
+M('C19', 'from_bases-column-order', I3F, "    let rot_m = Matrix3::from_columns(&[e0, e1, e2]);\n    let r = UnitQuaternion::from_rotation", "    let rot_m = Matrix3::from_columns(&[e1, e0, e2]);\n    let r = UnitQuaternion::from_rotation", 'from_bases')
 M('C19', 'iso3_from_basis-left-handed', SVF, "    let b2 = b0.cross(&b1).normalize();", "    let b2 = b1.cross(&b0).normalize();", 'iso3_from_basis')
 M('C19', 'svd-weighted-scale-centre', SVF, "                .map(|(p, w)| (p - center) * *w)", "                .map(|(p, w)| p - center * *w)", 'AFFINE')
 M('C19', 'svd-centre-not-stored', SVF, "            let center = mean_point(points);\n            let vectors = points.iter().map(|p| p - center).collect::<Vec<_>>();\n            svd_from_vectors(&vectors, Some(center))", "            let center = mean_point(points);\n            let vectors = points.iter().map(|p| p - center).collect::<Vec<_>>();\n            svd_from_vectors(&vectors, None)", 'from_points:centre')
@@ -437,3 +437,40 @@ M('C20', 'neutral-cos-order', CFM, "let cos_b = (a.powi(2) + c.powi(2) - b.powi(
 M('C20', 'neutral-bary-term-order', UVM, "        let p = tri.a.coords * barycentric[0]\n            + tri.b.coords * barycentric[1]\n            + tri.c.coords * barycentric[2];", "        let p = tri.c.coords * barycentric[2]\n            + tri.a.coords * barycentric[0]\n            + tri.b.coords * barycentric[1];", '', kind='neutral')
 M('C20', 'uv_to_3d-wrong-triangle', MSH, "        let t = self.shape.triangle(i as u32);\n        let coords = t.a.coords * bc[0]", "        let t = self.shape.triangle(bc.len() as u32 - 3 + i as u32 / 2);\n        let coords = t.a.coords * bc[0]", 'Mesh::uv_to_3d')
 M('C13', 'curve3-dedup-squared', 'src/geom3/curve3.rs', "        points.dedup_by(|a, b| dist(a, b) <= tol);", "        points.dedup_by(|a, b| (*a - *b).norm_squared() <= tol);", 'Curve3::from_points:dedup-predicate')
+M('C19', 'neutral-xy-gram-schmidt', I3F, """        let e0 = e0.try_normalize(1e-10).ok_or("Could not normalize e0")?;
+        let e2 = e0.cross(e1).try_normalize(1e-10).ok_or("Could not normalize e2")?;
+        let e1 = e2.cross(&e0).try_normalize(1e-10).ok_or("Could not normalize e1")?;
+
+        from_bases(e0, e1, e2, origin)""", """        let e0 = e0.try_normalize(1e-10).ok_or("Could not normalize e0")?;
+        let e1 = (e1 - e0 * e0.dot(e1)).try_normalize(1e-10).ok_or("Could not normalize e1")?;
+        let e2 = e0.cross(&e1).try_normalize(1e-10).ok_or("Could not normalize e2")?;
+
+        from_bases(e0, e1, e2, origin)""", '', kind='neutral')
+M('C19', 'xy-gram-schmidt-unnormalised-primary', I3F, """        let e0 = e0.try_normalize(1e-10).ok_or("Could not normalize e0")?;
+        let e2 = e0.cross(e1).try_normalize(1e-10).ok_or("Could not normalize e2")?;
+        let e1 = e2.cross(&e0).try_normalize(1e-10).ok_or("Could not normalize e1")?;
+
+        from_bases(e0, e1, e2, origin)""", """        let e1 = (e1 - e0 * e0.dot(e1)).try_normalize(1e-10).ok_or("Could not normalize e1")?;
+        let e0 = e0.try_normalize(1e-10).ok_or("Could not normalize e0")?;
+        let e2 = e0.cross(&e1).try_normalize(1e-10).ok_or("Could not normalize e2")?;
+
+        from_bases(e0, e1, e2, origin)""", 'try_from_basis_xy:right-handed')
+SVF = 'src/common/svd_basis.rs'
+M('C19', 'rank-position', SVF, """        let mut rank = 0;
+        for s in self.sv.iter() {
+            if *s > tol {
+                rank += 1;
+            }
+        }
+        rank""", "        self.sv.iter().position(|s| *s < tol).unwrap_or(D)", 'SvdBasis::rank')
+M('C19', 'rank-ge', SVF, "            if *s > tol {", "            if *s >= tol {", 'SvdBasis::rank')
+M('C19', 'rank-skip-first', SVF, "        for s in self.sv.iter() {\n            if *s > tol {", "        for s in self.sv.iter().skip(1) {\n            if *s > tol {", 'SvdBasis::rank')
+M('C19', 'neutral-rank-filter-count', SVF, """        let mut rank = 0;
+        for s in self.sv.iter() {
+            if *s > tol {
+                rank += 1;
+            }
+        }
+        rank""", "        self.sv.iter().filter(|s| **s > tol).count()", '', kind='neutral')
+M('C19', 'from_bases-iterative-extraction', I3F, "    let r = UnitQuaternion::from_rotation_matrix(&Rotation3::from_matrix_unchecked(rot_m));\n    let t = if let Some(o) = origin {", "    let r = UnitQuaternion::from_matrix(&rot_m);\n    let _ = Rotation3::<f64>::identity();\n    let t = if let Some(o) = origin {", 'from_bases')
+M('C19', 'iso2-iterative-extraction', SVF, "    let r = UnitComplex::from_rotation_matrix(&Rotation2::from_matrix_unchecked(rot_m));", "    let r = UnitComplex::from_matrix(&rot_m);", 'iso2_from_basis:exact-rotation')
